@@ -247,10 +247,11 @@ structure VarOk (now : Int) (lastTrig : List (Option Int)) (lastChange : List In
   ∀ s ∈ m.subs, ∀ sm, js[s.sid]? = some sm →
     ∀ (i : Nat) (v : Var), m.vars[i]? = some v → v.evented = true → v.deferred = none → sm.lastVals[i]? = some v.value
 
-/-- **The simulation relation** between the model state and the judge's monitor, whenever the server is idle. -/
-structure Rel (m : State) (j : Mon) : Prop where
+/-- **The simulation relation** between the model state and the judge's monitor, whenever the server is idle
+    (`T` = end of the current operation in virtual time). -/
+structure RelT (T : Int) (m : State) (j : Mon) : Prop where
   ok : j.ok = true
-  tgt : j.target = m.now
+  tgt : j.target = T
   now : j.now ≤ m.now
   awaiting : j.awaiting = none
   ev : j.evented = m.vars.map (·.evented)
@@ -260,6 +261,10 @@ structure Rel (m : State) (j : Mon) : Prop where
   vars : ∀ i v, m.vars[i]? = some v → VarOk m.now j.lastTrig j.lastChange i v
   subs : SubsOk m j.subs
   vals : ValsOk m j.subs
+  nowT : m.now ≤ T
+
+/-- between operations the monitor's operation window has closed on the model's clock -/
+abbrev Rel (m : State) (j : Mon) : Prop := RelT m.now m j
 
 theorem getD_map_of_getElem? {α β : Type} (l : List α) (f : α → β) (i : Nat) (a : α) (d : β)
     (h : l[i]? = some a) : (l.map f).getD i d = f a := by
@@ -308,10 +313,10 @@ theorem Rel.close {m : State} {j : Mon} (h : Rel m j) :
   have hq : quiescentOk { j with now := j.target } = true := by
     apply Rel.quiescent (m := m) _ h.tgt
     exact ⟨h.ok, h.tgt, by show j.target ≤ m.now; rw [h.tgt]; exact Int.le_refl _, h.awaiting, h.ev, h.rate, h.cur,
-      h.lcLen, h.vars, h.subs, h.vals⟩
+      h.lcLen, h.vars, h.subs, h.vals, Int.le_refl _⟩
   have hsubs : ∀ k : Nat, j.close.subs[k]? = (j.subs[k]?).map (fun (s : SubMon) => { s with credit := 0 }) := by
     intro k; simp [Mon.close]
-  refine ⟨⟨?_, h.tgt, ?_, h.awaiting, h.ev, h.rate, h.cur, h.lcLen, ?_, ⟨?_, h.subs.nodup, ?_, ?_⟩, ?_⟩, h.tgt⟩
+  refine ⟨⟨?_, h.tgt, ?_, h.awaiting, h.ev, h.rate, h.cur, h.lcLen, ?_, ⟨?_, h.subs.nodup, ?_, ?_⟩, ?_, Int.le_refl _⟩, h.tgt⟩
   · show (j.ok && quiescentOk { j with now := j.target }) = true
     rw [hq, h.ok]; rfl
   · show j.target ≤ m.now
